@@ -11,6 +11,7 @@ CONSTANTS
   FlushAtomic = FALSE
   LatchChecked = TRUE
   CloseLatches = TRUE
+  TimeoutReleases = FALSE
   Fifo = TRUE
   OnlyBad = TRUE
   Family = "atk_split"
